@@ -54,7 +54,15 @@ def r02_1(prog, rep):
 
     e = prog.function("typelib.api.encode")
     m_bodies = bodies("typelib.marshals.api.marshal", {"value": ("param", "value"), "t": ("param", "t")})
+    def verbatim_guard(g):
+        return T.contains(g, lambda x: T.is_call_to(x, f"{C.INSP}.isbytestype"))
+
     for p, r in P.returns(P.paths_of(prog, e)):
+        if any(pol and verbatim_guard(g) for g, pol in p.guards()):
+            # bytes-like types travel verbatim (same decision as codec(), judged by R02.5): the marshalled value itself
+            okv = T.is_call_to(r, "typelib.marshals.api.marshal") and _arg(r, 0, "value") == ("param", "value") and _arg(r, 1, "t") == ("param", "t")
+            rep.check(okv, "R02.1", e.qualname, e.loc, "[bytes] returns marshal(value, t=t) verbatim", "the verbatim path of api.encode does not return marshal(value, t=t)", detail="bytes")
+            continue
         ok = r[0] == "call" and r[1] == ("param", "encoder") and len(r[2]) == 1 and not r[3]
         inner = r[2][0] if ok else None
         ok = ok and (T.is_call_to(inner, "typelib.marshals.api.marshal") and _arg(inner, 0, "value") == ("param", "value") and _arg(inner, 1, "t") == ("param", "t") or (len(m_bodies) == 1 and inner == m_bodies[0]))
@@ -63,10 +71,30 @@ def r02_1(prog, rep):
     for p, r in P.returns(P.paths_of(prog, d)):
         ok = T.is_call_to(r, "typelib.unmarshals.api.unmarshal") and _arg(r, 0, "t") == ("param", "t")
         v = _arg(r, 1, "value") if ok else None
-        ok = ok and v == ("call", ("param", "decoder"), (("param", "value"),), ())
+        dec = ("call", ("param", "decoder"), (("param", "value"),), ())
+        if v is not None and v[0] == "ifexp" and verbatim_guard(v[1]) and v[2] == ("param", "value"):
+            v = v[3]  # bytes-like types are handed over undecoded (same decision as codec(), judged by R02.5)
+        if any(pol and verbatim_guard(g) for g, pol in p.guards()) and v == ("param", "value"):
+            v = dec
+        ok = ok and v == dec
         u_bodies = bodies("typelib.unmarshals.api.unmarshal", {"t": ("param", "t"), "value": ("call", ("param", "decoder"), (("param", "value"),), ())})
         ok = ok or (len(u_bodies) == 1 and r == u_bodies[0])
         rep.check(ok, "R02.1", d.qualname, d.loc, "returns unmarshal(t, decoder(value))", "api.decode does not unmarshal(t, <its `decoder` parameter applied to value>): " + T.show(r)[:120])
+
+
+def r02_5(prog, rep):
+    """All entry points agree on which types travel verbatim: codec() carries bytes-like types without the JSON coder, so
+    api.encode / api.decode must take the same decision (or delegate to codec())."""
+    cf = prog.function("typelib.codecs.codec")
+    codec_has = any(T.is_call_to(g, f"{C.INSP}.isbytestype") for p in P.paths_of(prog, cf) for g, _ in p.guards())
+    for q, role in (("typelib.api.encode", "encoder"), ("typelib.api.decode", "decoder")):
+        f = prog.function(q)
+        ps = P.paths_of(prog, f)
+        delegates = any(T.contains(tm, lambda x: T.is_call_to(x, "typelib.codecs.codec")) for p in ps for tm in p.all_terms())
+        guarded = any(T.contains(tm, lambda x: T.is_call_to(x, f"{C.INSP}.isbytestype")) for p in ps for tm in p.all_terms())
+        bypass = any(p.exit[0] == "return" and not T.contains(p.exit[1], lambda x: x[0] == "call" and x[1] == ("param", role)) for p in ps) or any(T.contains(p.exit[1], lambda x: x[0] == "ifexp" and T.contains(x[1], lambda y: T.is_call_to(y, f"{C.INSP}.isbytestype"))) for p in ps if p.exit[0] == "return")
+        ok = (not codec_has) or delegates or (guarded and bypass)
+        rep.check(ok, "R02.5", q, f.loc, f"{q.rsplit('.', 1)[1]}() takes the same verbatim-bytes decision as codec()", f"codec() carries bytes-like types verbatim but {q.rsplit('.', 1)[1]}() always runs the {role}: codec(bytes).encode(b'abc') == b'abc' while typelib.encode(b'abc', t=bytes) raises TypeError; typelib.decode(bytes, b'\"abc\"') == b'abc' while codec(bytes).decode(b'\"abc\"') == b'\"abc\"'", detail="bytes-agreement")
 
 
 def r02_4(prog, rep):
@@ -182,6 +210,8 @@ def run(prog: Program, rep: Report, tier: str):
     rep.rule("R02.1", "composition shape of the four entry points", floor=4)
     rep.rule("R02.2", "codec() wiring, bytes guard, Codec fields", floor=9)
     rep.rule("R02.3", "default coders symmetric on one backend", floor=6)
+    rep.rule("R02.5", "entry points agree on which types travel verbatim", floor=2)
+    r02_5(prog, rep)
     rep.rule("R02.4", "codec memoisation keyed on every configuration parameter", floor=1)
     r02_1(prog, rep)
     r02_2(prog, rep)
